@@ -276,6 +276,35 @@ EvFn(node, st0, ctx) ==
               cur == GetVar(st.vars, v)
               xs == IF cur.t = "list" THEN cur.items ELSE <<>>
           IN R(VInt(Len(xs)), D, [st EXCEPT !.vars = SetVar(st.vars, v, VList(xs))])
+    [] nm = "every" ->       \* every.name(x, n): counts sightings per value of x; matches every n-th sighting
+          LET v == node.name_q
+              c == GetTracked(st.vars, v, A(1))
+              new == (IF c.t = "none" THEN 0 ELSE c.i) + 1
+              m == new % A(2).i
+          IN R(VInt(m), m = 0, [st EXCEPT !.vars = SetTracked(st.vars, v, A(1), VInt(new))])
+    [] nm = "get" ->         \* get(name [, key | index])
+          LET v == GetVar(st.vars, node.args[1].name_q)
+              r == IF v.t = "none" THEN None
+                   ELSE IF N = 1 THEN v
+                   ELSE IF v.t = "list" /\ A(2).t = "int"
+                          THEN (IF A(2).i >= 0 /\ A(2).i < Len(v.items) THEN v.items[A(2).i + 1] ELSE None)
+                   ELSE IF v.t = "dict" THEN DGet(v, A(2)) ELSE None
+          IN R(r, r.t # "none", st)
+    [] nm = "put" ->         \* put(name, value) / put(name, key, value); it has no value of its own, hence a negative vote
+          LET v == node.args[1].name_q
+              vars2 == IF N = 2 THEN SetVar(st.vars, v, A(2)) ELSE SetTracked(st.vars, v, A(2), A(3))
+          IN R(None, FALSE, [st EXCEPT !.vars = vars2])
+    [] nm = "track" ->       \* track.name(key, value)
+          LET v == IF node.name_q = "" THEN "track" ELSE node.name_q
+              key == VStr(Strip(StrOf(A(1))))
+              val == IF A(2).t = "str" THEN VStr(Strip(A(2).s)) ELSE A(2)
+          IN R(None, D, [st EXCEPT !.vars = SetTracked(st.vars, v, key, val)])
+    [] nm = "peek" ->
+          LET v == node.args[1].name_q
+              cur == GetVar(st.vars, v)
+              xs == IF cur.t = "list" THEN cur.items ELSE <<>>
+              r == IF A(2).i >= 0 /\ A(2).i < Len(xs) THEN xs[A(2).i + 1] ELSE None
+          IN R(r, D, [st EXCEPT !.vars = SetVar(st.vars, v, VList(xs))])
     [] nm \in {"stop", "fail_and_stop"} ->
           LET fire == N = 0 \/ rs[1].vote
               st1 == IF fire THEN [st EXCEPT !.stopped = TRUE] ELSE st
